@@ -71,6 +71,8 @@ def cases(tier, seed):
                 opts["noise_final_samples"] = int(rng.choice([0, 1]))
         if cons != "none" and x0mode == "none":
             x0mode = "in"
+        if mode == "he" and rng.random() < 0.3:
+            opts["noise_size"] = [0.5, 0, 2.0][int(rng.integers(3))]  # documented basic option (ignored with a warning under specified noise)
         if rng.random() < 0.15:
             opts["complete_poll"] = True
         if rng.random() < 0.1:
